@@ -81,6 +81,14 @@ def main(ctx):
     ctx.expect_vacuity("exported pairs", len(c1))
     ctx.expect_vacuity("exported pairs with banded-model answers", len(c2))
     ctx.extra["exported_pairs"] = len(c1) + len(c2)
+    # scenario classes taken from the implementation-shaped model: beyond the bound it answers either
+    # 'not found' or a pair that is itself beyond the bound - both must have been exported
+    nf = sum(1 for c in c2 for k in range(len(c["bounds"])) if c["lcs"][k][2] >= 0 and c["impl"][k][0] < 0)
+    bp = sum(1 for c in c2 for k in range(len(c["bounds"])) if c["lcs"][k][2] >= 0 and c["impl"][k][0] >= 0)
+    ctx.expect_vacuity("model cases beyond the bound answered 'not found'", nf)
+    ctx.expect_vacuity("model cases beyond the bound answered by a beyond-bound pair", bp)
+    ctx.extra["model_beyond_bound_notfound"] = nf
+    ctx.extra["model_beyond_bound_pair"] = bp
     ctx.extra["bounds"] = c1[0]["bounds"]
     # R ---------------------------------------------------------------------------------------
     for path, cs in ((cases, c1), (casesb, c2)):
@@ -95,7 +103,7 @@ def main(ctx):
     ctx.extra["banded_model_differs_from_code"] = ctx.classes.get("diag/banded_model_differs", 0)
     # T ---------------------------------------------------------------------------------------
     trace = ctx.path("trace.ndjson")
-    n, maxlen = (5000, 400) if thorough else (1500, 150)
+    n, maxlen = (10000, 500) if thorough else (1500, 150)
     ctx.harness(["record", "C09", "--out", trace, "--n", n, "--opt", "maxlen=%d" % maxlen], timeout=900)
     events, rejects = validate_trace(ctx, trace, 1500)
     fam = collections.Counter("%s/%s" % (e["k"], e["sc"]) for e in events)
@@ -108,7 +116,7 @@ def main(ctx):
     ctx.extra["trace_max_len"] = max(max(len(e["a"]), len(e["b"])) for e in events)
     ctx.extra["trace_dp_cells"] = sum(len(e["a"]) * len(e["b"]) for e in events if e["k"] != "d1")
     ev = events[0]
-    ctx.samples.append({"trace_event": {k: ("".join(v) if k in ("a", "b") else v) for k, v in ev.items()}})
+    ctx.samples.insert(0, {"trace_event": {k: ("".join(v) if k in ("a", "b") else v) for k, v in ev.items()}})
     ctx.assumptions += [
         "sequences are lower-case IUPAC nucleotide symbols (acgt u ryswkm bdhv n); other bytes are outside the specification",
         "FastLCSEGFScore: the overhang of the longer sequence is free; on equal lengths either argument may play the longer "
